@@ -82,7 +82,7 @@ def decodeEntry (c : Cfg) (k : RelKind) (bs : Bytes) : RelocEntry :=
     addend := if hasAddend k then untwos w (decodeInt c.enc (slice bs (2 * w) w)) else 0 }
 
 /-- the table a section's bytes stand for: consecutive entries -/
-def encodeTable (c : Cfg) (k : RelKind) (es : List RelocEntry) : Bytes :=
+def encodeRelTable (c : Cfg) (k : RelKind) (es : List RelocEntry) : Bytes :=
   es.flatMap (encodeEntry c k)
 
 /-- what is representable: the entry as it comes back (offset and addend reduced to the
